@@ -12,7 +12,9 @@
 //!
 //! Mutants caught (tools/mutant_run.sh F <diff> C32 quick):
 //!  * /verif/mutants/C32-force-inverted.diff   (`!args.force` -> `args.force` in the sign branch: existing output overwritten without -f)
+//!      -> `clobber what=output mode=sign out=file ... f=0 ...`, `clobber what=input-as-output ...`
 //!  * /verif/mutants/C32-folder-no-exists-check.diff (folder mode: existing folder wiped without -f)
+//!      -> `clobber what=output-folder-entry mode=report|report-detailed|ingredient out=dir ... how=removed|changed`
 
 use std::{
     collections::BTreeMap,
@@ -634,13 +636,17 @@ fn summary(obs: &[StepObs]) -> String {
 }
 
 pub fn run(run: &Run, replay: Option<&Value>) {
-    run.rule("every c2patool command line of the product {sign | report | report --detailed | --ingredient to folder} x output {absent, existing file, existing dir, same as input} x -f x --sidecar x pre-existing .c2pa x --remote (sign), x input {signed, unsigned} (folder modes), for each format; plus every pair (first invocation with its pre-state) x (any second command line). \
+    run.rule("every c2patool command line of the product {sign | report | report --detailed | --ingredient to folder} x output {absent, existing file, existing dir, same as input} x -f x --sidecar x pre-existing .c2pa x --remote (sign), x input {signed, unsigned} (folder modes), for each format; plus every pair (first invocation with its pre-state) x (second command line: a 20-line core subset for one format in the quick tier, all 68 lines for all formats in the thorough tier). \
               non-trivial = invocations that start while a path they would write to (output, output folder, sidecar) already exists");
     run.assume("the binary is built from the repo's working tree by tools/build_c2patool.sh with the default features; it runs with a private HOME/XDG_CONFIG_HOME/TMPDIR, so no user settings are read");
     run.assume("'reports a file as signed' is taken to mean: a command line with a manifest definition (-m) exits with status 0");
     run.assume("with -f nothing is demanded of the paths the invocation writes to; unrelated paths are not judged under -f");
     run.assume("the remote URL points at a closed local port (127.0.0.1:9), so no network is needed; signing credentials are the repo's cli/sample es256 test keys");
+    let t_build = Instant::now();
     let tool = build_tool();
+    let build_s = t_build.elapsed().as_secs_f64();
+    run.extra("c2patool_build_s", json!((build_s * 10.0).round() / 10.0));
+    println!("C32: c2patool built from the working tree in {build_s:.1}s (included in wall_s)");
     let seeds = seeds();
 
     if let Some(c) = replay {
